@@ -132,11 +132,70 @@ def rule_worker_rng(ctx, rid):
                         why = 'the noise argument %s does not depend on the member index' % show(n)[:60]
                         break
                 if okn:
+                    why = _noise_layout(s.states)
+                    okn = why is None
+                if okn:
                     ctx.passed(rid, fi, c2, 'indexed by the member variable', node=call)
                 else:
                     ctx.violation(rid, fi, c2, 'members do not receive distinct parent-generated noise: ' + why,
                                   node=call)
     ctx.cover['dispatch_sites'] = nsites
+
+
+def _noise_layout(states):
+    """The member's noise is one full line of the parent-side matrix along the sample axis: the axis that is not
+    indexed by the member variable is taken whole and has one entry per sample of the signal handed to the worker.
+    Returns a complaint or None (also None when the construction is not of the recognised matrix form)."""
+    for bound, star, env, trace in states:
+        n = bound.get('noise')
+        X = bound.get('X')
+        if n is None or X is None:
+            continue
+        subs = [t for t in subterms(n) if t[0] == 'sub' and t[2][0] == 'tuple' and any(x[0] == 'bv' for x in t[2][1])]
+        if not subs:
+            continue
+        t = subs[0]
+        idx = [x for x in t[2][1] if x != NONE]
+        if len(idx) != 2:
+            continue
+        ax = [i for i, x in enumerate(idx) if x[0] == 'bv']
+        if len(ax) != 1:
+            continue
+        other = idx[1 - ax[0]]
+        if not (other[0] == 'slice' and other[1:] == (NONE, NONE, NONE)):
+            return 'the member\'s noise is %s: not a whole line of the noise matrix along the sample axis' % show(t)[:70]
+        base = t[1]
+        while base[0] == 'bin' and base[1] in ('*', '/', '+', '-'):
+            l_draw = any(x[0] == 'call' and x[1].startswith('numpy.random.') for x in subterms(base[2]))
+            base = base[2] if l_draw else base[3]
+        if not (base[0] == 'call' and base[1].startswith('numpy.random.')):
+            continue
+        if base[1] in ('numpy.random.randn', 'numpy.random.rand'):
+            shp = list(base[2])
+        else:
+            sz = dict(base[3]).get('size', base[2][-1] if base[2] else None)
+            if sz is None or sz[0] not in ('tuple', 'list'):
+                continue
+            shp = list(sz[1])
+        if len(shp) != 2:
+            return 'the parent-side noise has shape (%s): not a samples x members matrix' % ', '.join(show(x)[:30] for x in shp)
+        rows = shp[1 - ax[0]]
+        # the sample count of the signal, or of any array the signal handed to the worker is computed from
+        # (the running residual X - sum(imfs) has the samples of X)
+        parts = set(subterms(X))
+        ok_rows = (rows[0] == 'sub' and rows[2] == C(0) and rows[1][0] == 'attr' and rows[1][2] == 'shape'
+                   and rows[1][1] in parts) or (rows[0] == 'call' and rows[1] == 'builtins.len' and rows[2][0] in parts)
+        def is_rows(r):
+            return (r[0] == 'sub' and r[2] == C(0) and r[1][0] == 'attr' and r[1][2] == 'shape' and r[1][1] in parts) \
+                or (r[0] == 'call' and r[1] == 'builtins.len' and r[2][0] in parts)
+        if not ok_rows and is_rows(shp[ax[0]]):
+            return ('the noise matrix is laid out with the samples along axis %d but the member variable indexes that axis: '
+                    'a member receives one sample of every realisation instead of one realisation' % ax[0])
+        if not ok_rows:
+            if any(x[0] == 'attr' and x[2] == 'shape' for x in subterms(rows)) or is_c(rows):
+                return ('the noise matrix has %s entries along the sample axis, the signal has X.shape[0]: the noise added '
+                        'to a member is not one value per sample' % show(rows)[:50])
+    return None
 
 
 def _opaque(formal, t):
@@ -461,6 +520,12 @@ def rule_noise_update(ctx, rid):
     n = 0
     bad = None
     for where, t, env in vals:
+        is_upd = t[0] == 'bin' and any(x[0] == 'meth' and x[1] in ('starmap', 'map') and x[3] and
+                                        x[3][0] in (('ref', 'emd.sift.sift'), ('func', 'emd.sift.sift'))
+                                        for x in subterms(t[3]) if isinstance(x, tuple))
+        if t[0] == 'bin' and t[1] != '-' and is_upd:
+            bad = '%s: the first IMFs of the noise columns are combined with the noise by `%s`, not subtracted from it' % (where, t[1])
+            break
         if not (t[0] == 'bin' and t[1] == '-'):
             continue
         n += 1
